@@ -81,6 +81,13 @@ CLAIMED.update({
             "7 C11"),
 })
 
+CLAIMED.update({
+    "C18": ("Coq proof (decode-after-format round trip of the native line from the split/join, padding and strip lemmas; idempotence of name sorting for the second cycle; law-preservation table from the C05 law theorems, with separating interpretations for the pairs that differ) + extracted-model correspondence on written lines, re-read reactions and second-cycle lines + network-level oracle and per-type export/re-render evaluation",
+            "Theorems in Props/C18.v: a well-formed reaction written by Reaction.__format__('naunet') reads back with the same index, window, type code, source tag and printed alpha/beta/gamma, its reactants and products in name order (a permutation: multiplicities kept); writing what was read back gives the same line (second cycle is the identity); a whole network keeps its reactions in order. For export + re-render: KIDA formulae 1-5, UMIST two-body / photo / cosmic-ray photon, Leeds type 1 and UCLCHEM two-body keep their law under the native class for every coefficient and interpretation; UMIST CP, Leeds 2/3/4 and UCLCHEM CR/CP/PH provably do not (known finding, separating interpretation given). Tied to Network.write / Network(filelist, 'naunet') / Network.export + `naunet render`.",
+            "Numbers are carried as printed texts (CPython %10.3e / %9.2f / float() trusted: re-formatting a parsed printed value reproduces it - sampled by the byte-identical second write); two known findings (format laws re-read as native laws; Leeds G-prefixed ice names unreadable by the native reader).",
+            "7 C18"),
+})
+
 NOT_YET = {}
 
 
